@@ -455,6 +455,9 @@ pub struct Shared {
     pub pool: Option<Arc<Mutex<usize>>>,
     /// `call` without readiness panics (as tower's limit / buffer services do) instead of failing
     pub panic_unready: bool,
+    /// the key store assembles its responses with one builder that it keeps for its lifetime and
+    /// sets every field of for every lookup
+    pub response_builder: scratchstack_aws_signature::GetSigningKeyResponseBuilder,
 }
 
 impl Shared {
@@ -473,6 +476,7 @@ impl Shared {
             record_events: true,
             pool: None,
             panic_unready: false,
+            response_builder: GetSigningKeyResponse::builder(),
         }
     }
     pub fn push(&mut self, task: usize, val: usize, kind: EvKind) {
@@ -520,6 +524,15 @@ pub fn session_for(acct: &Account) -> SessionData {
     let mut s = SessionData::new();
     s.insert("aws:username", SessionValue::String(acct.user.clone()));
     s.insert("sim:access-key", SessionValue::String(acct.access_key.clone()));
+    // every kind of value, the ones that "carry no information" included
+    s.insert("aws:MultiFactorAuthAge", SessionValue::Null);
+    s.insert(&format!("sim:null-of-{}", acct.user), SessionValue::Null);
+    s.insert("aws:MultiFactorAuthPresent", SessionValue::Bool(acct.user.len() % 2 == 0));
+    s.insert("sim:empty", SessionValue::String(String::new()));
+    s.insert("sim:count", SessionValue::Integer(acct.access_key.len() as i64 - 5));
+    s.insert("sim:blob", SessionValue::Binary(vec![0, 0xff, acct.user.len() as u8]));
+    s.insert("aws:SourceIp", SessionValue::IpAddr(std::net::IpAddr::from([192, 0, 2, acct.user.len() as u8])));
+    s.insert("aws:TokenIssueTime", SessionValue::Timestamp(datetime_of(acct.secret.len() as i128 * 1_000_000_007)));
     s
 }
 
@@ -804,12 +817,14 @@ impl Future for ProvFuture {
                 });
                 drop(sh);
                 match derive_with_library(&secret, req.request_date(), req.region(), req.service(), level) {
-                    Ok(k) => Poll::Ready(Ok(GetSigningKeyResponse::builder()
-                        .principal(principal_for(&acct))
-                        .session_data(session_for(&acct))
-                        .signing_key(k)
-                        .build()
-                        .expect("response"))),
+                    Ok(k) => {
+                        let mut sh = this.shared.lock().unwrap();
+                        let b = &mut sh.response_builder;
+                        b.principal(principal_for(&acct));
+                        b.session_data(session_for(&acct));
+                        b.signing_key(k);
+                        Poll::Ready(Ok(b.build().expect("response")))
+                    }
                     Err(m) => Poll::Ready(Err(Box::new(HarnessError(format!("{} key store failure: {}", PROVIDER_MSG_PREFIX, m))))),
                 }
             }
@@ -965,6 +980,21 @@ pub fn vec_requirements(node: &Node) -> VecSignedHeaderRequirements {
         }
         for s in &p {
             v.add_prefix(s);
+        }
+        if h & 8 != 0 {
+            // a deployment toggles its requirements off and on again (in another spelling): they hold
+            for s in &a {
+                v.remove_always_present(&s.to_lowercase());
+                v.add_always_present(&s.to_uppercase());
+            }
+            for s in &c {
+                v.remove_if_in_request(&s.to_uppercase());
+                v.add_if_in_request(s);
+            }
+            for s in &p {
+                v.remove_prefix(s);
+                v.add_prefix(&s.to_lowercase());
+            }
         }
         if h & 2 != 0 {
             // a name added twice in two spellings and withdrawn once is gone
